@@ -62,12 +62,12 @@ def shaped_doc(R, names, leaves, shape):
             recs.append(rec if R.random() < 0.8 else [[], {}, leaf()])
         return recs if R.random() < 0.5 else {R.choice(names): recs, "z": leaf()}
     if shape == "wide-array":
-        n = R.randint(120, 300)
+        n = R.choice([R.randint(120, 300), 256, 256, 257, 300, 1000])   # a few fixed sizes: equal-sized documents follow each other
         arr = [leaf() if R.random() < 0.8 else small() for _ in range(n)]
         return arr if R.random() < 0.5 else {R.choice(names): arr, R.choice(names) + "2": [arr[:3]]}
     if shape == "wide-object":
         d = {}
-        for i in range(R.randint(100, 200)):
+        for i in range(R.choice([R.randint(100, 200), 256, 256, 300])):
             d[R.choice(["k%d" % i, str(i), str(-i), R.choice(names) + str(i)])] = leaf() if R.random() < 0.8 else small()
         for n_ in names[:6]:
             d[n_] = small()
